@@ -2,7 +2,7 @@ import GroupbyVerif.Lemmas.Ring
 import GroupbyVerif.Lemmas.RingMax
 import GroupbyVerif.Props.C08
 import GroupbyVerif.Generated.Constants
-import GroupbyVerif.LoopBridge.Rolling
+import GroupbyVerif.LoopBridge.RollingMax
 
 /-!
 # C09 — Rolling operations are per-group sliding-window reductions
@@ -310,10 +310,55 @@ theorem source_rolling_shift_diff_eq_window (op : RollOp) (hop : op = .shift ∨
   have hspec := rolling_shift_diff_eq_window op hop w 0 hw _ i _ hrow hg (by rw [hs]; rfl)
   rw [h, LoopBridge.cellAt, hspec]
 
+/-- **the translated `_rolling_max_or_min_1d` (with the translated helper `min_or_max_and_position`) computes the
+sliding-window extremum**: at every selected row with a non-null key the largest / smallest non-null value among the
+last `window` selected rows of the same group, `null_value` unless at least `min_periods >= 1` of them are non-null;
+the kernel raises nothing and the helper's `while` loop stays within its bound -/
+theorem source_rolling_max_min_eq_window (k : Kind) (wantMax : Bool) (w : Nat) (hw : 0 < w) (minp : Option Nat)
+    (hminp : 0 < minp.getD w) (codes : List Int) (chunks : List (List Val)) (msk : List Bool) (masked : Bool) (ng ml : Int)
+    (hlen : codes.length = chunks.flatten.length) (hwf : ∀ v ∈ chunks.flatten, WF k v)
+    (hnan : ∀ v ∈ chunks.flatten, v = .nan → nullValue k = .nan)
+    (i : Nat) (hi : i < codes.length) (hg : 0 ≤ codes.getD i 0) (hs : (masked && !(msk.getD i true)) = false) :
+    let r := Generated.Loops.rolling_max_or_min k codes.length (arrOf codes 0) chunks ng w minp.isSome (minp.getD 0) masked ml
+      (arrOf msk true) (nullValue k) wantMax
+    r.2 = false ∧ r.1 (i : Int) = LoopBridge.cellVal (fun a _ => a) (nullValue k)
+      (specRollAt k (if wantMax then RollOp.max else RollOp.min) w (minp.getD w)
+        (selVals ((LoopBridge.cumRows codes chunks.flatten masked msk).take (i + 1)) (codes.getD i 0))) := by
+  intro r
+  have hb := LoopBridge.rolling_max_or_min_eq k wantMax w hw minp codes chunks msk masked ng ml hlen hnan
+  refine ⟨hb.1, ?_⟩
+  have h := hb.2 i hi
+  have hrow := cumRows_getElem codes chunks.flatten masked msk i hi
+  have hwf' : ∀ r ∈ LoopBridge.cumRows codes chunks.flatten masked msk, WF k r.val := by
+    intro r hr
+    simp only [LoopBridge.cumRows, List.mem_map, List.mem_range] at hr
+    obtain ⟨j, hj, rfl⟩ := hr
+    have hjl : j < chunks.flatten.length := by omega
+    simp only
+    rw [List.getD_eq_getElem?_getD, List.getElem?_eq_getElem hjl]
+    exact hwf _ (List.getElem_mem hjl)
+  have hspec : (rolling k (if wantMax then RollOp.max else RollOp.min) w (minp.getD w)
+      (LoopBridge.cumRows codes chunks.flatten masked msk))[i]? = some (some (specRollAt k
+        (if wantMax then RollOp.max else RollOp.min) w (minp.getD w)
+        (selVals ((LoopBridge.cumRows codes chunks.flatten masked msk).take (i + 1)) (codes.getD i 0)))) := by
+    cases wantMax
+    · have := rolling_min_eq_window k w (minp.getD w) hw hminp _ hwf' i _ hrow hg (by rw [hs]; rfl)
+      exact this
+    · have := rolling_max_eq_window k w (minp.getD w) hw hminp _ hwf' i _ hrow hg (by rw [hs]; rfl)
+      exact this
+  rw [h, LoopBridge.cellAt, hspec]
+
 /-- non-vacuity: rolling sum, window 2, two groups, a NaN, a null key, two chunks -/
 example :
     let r := Generated.Loops.rolling_sum_or_mean .f (fun a _ => a) 6 (arrOf [0, 1, 0, -1, 0, 1] 0)
       [[.num 1, .num 10, .nan], [.num 7, .num 4, .num 20]] 2 2 true 1 false 0 (arrOf [] true) .nan false
     ((List.range 6).map fun (j : Nat) => r.1 (j : Int)) = [.num 1, .num 10, .num 1, .nan, .num 4, .num 30] := by decide
+
+/-- non-vacuity: rolling max, window 2: the extremum leaves the window and the buffer is rescanned by the helper -/
+example :
+    let r := Generated.Loops.rolling_max_or_min .f 6 (arrOf [0, 0, 0, 1, 0, 0] 0)
+      [[.num 9, .num 2, .num 1], [.num 5, .nan, .num 0]] 2 2 true 1 false 0 (arrOf [] true) .nan true
+    (((List.range 6).map fun (j : Nat) => r.1 (j : Int)), r.2) = ([.num 9, .num 9, .num 2, .num 5, .num 1, .num 0], false) := by
+  decide
 
 end GV.C09
